@@ -56,6 +56,8 @@ def live_macro_rows(ctx):
         m.__path__ = [os.path.join(ctx.repo, "smt")]
         sys.modules["smt"] = m
     failed = []
+    from logic import basic
+    basic.load_theory('real')          # smt/verit modules need it loaded first
     for mod in macro_modules(ctx.repo):
         try:
             with warnings.catch_warnings():
@@ -365,6 +367,8 @@ def safe_str(x):
         return str(x)
     except RecursionError:
         return "<term too deep to print>"
+    except Exception as e:  # noqa  (the printer consults the current theory)
+        return "<unprintable: %s>" % type(e).__name__
 
 
 def wire_str(w):
@@ -1790,7 +1794,7 @@ def forged_stream(ctx):
                 n_ok += 1
                 ctx.violation("forged-constant:%s" % macro,
                               "%s accepted a goal in which a constant is used at a type that is no instance of its declared type "
-                              "(not a term of the theory): |- %s" % (macro, safe_str(res[1].prop)),
+                              "(not a term of the theory): goal %s, asserted |- %s" % (macro, short_key(tree), safe_str(res[1].prop)),
                               {"macro": macro, "goal": tree, "forged": True, "asserted": safe_str(res[1])})
     return n_ok
 
@@ -1860,8 +1864,8 @@ def run(ctx):
         "rational enclosures (15 x 15 enclosure pairs x 6 relations) against the model's accept conditions; "
         "polynomial (non-)identities over x y n; every goal is sent to every trusted arithmetic macro. A case is (macro, goal); non-trivial = "
         "the checker accepted it; distinct by the goal tree.")
-    # 1. translated table + Lean obligations
-    K.load()
+    # 1. translated table + Lean obligations (importing every macro module may switch the current theory:
+    #    K.load() afterwards makes 'transcendentals' the current one)
     try:
         gen, rows, lvl = gen_lean(ctx)
         if ctx.write_if_changed("Holpy/C05/Gen.lean", gen):
@@ -1870,6 +1874,7 @@ def run(ctx):
     except Exception as e:  # noqa
         rows = []
         ctx.broken("translate:c05:macro-table", "untranslatable: %r" % e)
+    K.load()
     proofs_ok = ctx.lean_props(["Holpy.C05.Props"], exes=[EXE])
     if ctx.tier == "thorough" and proofs_ok:
         ctx.lean_check_modules(["Holpy.C05.Props"])
